@@ -1741,6 +1741,9 @@ func (e *Exec) takeHeapNames() map[string]bool {
 
 func (e *Exec) checkInvs(st *State, li *loopInfo, phase string, env func(*State) *cenv) {
 	for _, c := range li.invs {
+		if c.Kind == "loopexit" {
+			continue
+		}
 		g := e.evContract(st, c.Expr, env(st))
 		name := fmt.Sprintf("%s#inv-%s:%s", e.fnName, phase, c.Name)
 		e.oblige(st, name, "inv-"+phase, c.Props, g, li.pos)
@@ -1749,8 +1752,30 @@ func (e *Exec) checkInvs(st *State, li *loopInfo, phase string, env func(*State)
 
 func (e *Exec) assumeInvs(st *State, li *loopInfo, env func(*State) *cenv) {
 	for _, c := range li.invs {
+		if c.Kind == "loopexit" {
+			continue
+		}
 		g := e.evContract(st, c.Expr, env(st))
 		e.assume(st, g)
+	}
+}
+
+// checkLoopExit: `loopexit "key" name: P` must hold wherever the loop is left — at its normal end AND at every
+// break (what an invariant alone never says: a `break` leaves with the invariant but without the exit condition).
+func (e *Exec) checkLoopExit(st *State, li *loopInfo, env func(*State) *cenv) {
+	if st.dead {
+		return
+	}
+	for _, c := range li.invs {
+		if c.Kind != "loopexit" {
+			continue
+		}
+		g := e.evContract(st, c.Expr, env(st))
+		name := fmt.Sprintf("%s#loopexit:%s", e.fnName, c.Name)
+		o := e.oblige(st, name, "loopexit", c.Props, g, li.pos)
+		if o != nil {
+			o.Clause = c.Src
+		}
 	}
 }
 
@@ -1813,6 +1838,7 @@ func (e *Exec) loopCore(st *State, li *loopInfo, label string, env func(*State) 
 	}
 	outs := append([]*State{exitSt}, jf.breaks...)
 	e.setState(st, e.merge(outs...))
+	e.checkLoopExit(st, li, env)
 }
 
 // unrollLoop executes up to n iterations and then assumes the loop has exited (bounded mode).
@@ -2036,6 +2062,7 @@ func (e *Exec) rangeStmt(st *State, s *ast.RangeStmt, label string) {
 	}
 	outs := append([]*State{exitSt}, jf.breaks...)
 	e.setState(st, e.merge(outs...))
+	e.checkLoopExit(st, li, env)
 	delete(st.vars, idx)
 }
 
